@@ -29,6 +29,8 @@ def convert_pit(prog, seed, fold_bn=False, discrete_cost=False, full_cost=False,
               autoconvert_layers=autoconvert)
     kw.update(extra_kwargs or {})
     pit = PIT(model, cost=cost if cost is not None else params, **kw)
+    from vf import neutral
+    neutral.maybe_warm(pit, xs, seed)
     return model, pit, xs
 
 
